@@ -174,6 +174,30 @@ M2('c13-both-dash-boundary-without-dashes', 'C13', 'R4', [
     {'file': SYNC, 'old': "self._dash_boundary = b'--' + boundary", 'new': "self._dash_boundary = boundary"},
     {'file': ASGI, 'old': "self._dash_boundary = b'--' + boundary", 'new': "self._dash_boundary = boundary"}])
 
+# preserving/k3-c13-1 (prologue flag removed: `part_delimiter = _CRLF + delimiter` computed once before the loop, `delimiter =
+# part_delimiter` right after every successful pipe_until) is decided on the values the local holds: silent as is; broken below
+_K3_FLAG = """                if prologue:
+                    # NOTE(vytas): RFC 7578, section 4.1.
+                    #   As with other multipart types, the parts are delimited
+                    #   with a boundary delimiter, constructed using CRLF,
+                    #   "--", and the value of the "boundary" parameter.
+                    delimiter = _CRLF + delimiter
+                    prologue = False
+"""
+_K3_HEAD = "        prologue = True\n        delimiter = self._dash_boundary\n"
+
+
+def _k3(head, body):
+    return [{'file': fn, 'old': old, 'new': new} for fn in (SYNC, ASGI) for old, new in ((_K3_HEAD, head), (_K3_FLAG, body))]
+
+
+M2('c13-k3-part-delimiter-without-crlf', 'C13', 'R4',
+   _k3("        delimiter = self._dash_boundary\n        part_delimiter = delimiter\n", "                delimiter = part_delimiter\n"))
+M2('c13-k3-part-delimiter-never-installed', 'C13', 'R4',
+   _k3("        delimiter = self._dash_boundary\n        part_delimiter = _CRLF + delimiter\n", "                part_delimiter = part_delimiter\n"))
+M2('c13-k3-part-delimiter-doubles-crlf', 'C13', 'R4',
+   _k3("        delimiter = self._dash_boundary\n        part_delimiter = _CRLF + delimiter\n", "                delimiter = _CRLF + part_delimiter\n"))
+
 M('c13-parse-header-fast-path-with-quotes', 'C13', 'R8', 'falcon/util/mediatypes.py',
   """    if '"' not in line and '\\\\' not in line:""", """    if '\\\\' not in line:""", also=('C11',))
 
